@@ -51,6 +51,11 @@ def ref_matrix(rng, A, L):
         return [[[0, 1]] * L for _ in range(A)]
     if r < 0.9 and A in (2, 4):
         return [[[1, A]] * L for _ in range(A)]
+    if r < 0.95:
+        # entries k/8 that do NOT sum to one per position (scaled one-hot, arbitrary profiles): still a reference
+        import math as _m
+        vals = [[rng.choice([0, 0, 1, 2, 4, 4, 8, 3]) for _ in range(L)] for _ in range(A)]
+        return [[[v // _m.gcd(v, 8) if v else 0, 8 // _m.gcd(v, 8) if v else 1] for v in row] for row in vals]
     cols = []
     for _ in range(L):
         cuts = sorted(rng.randint(0, 8) for _ in range(A - 1))
@@ -125,7 +130,14 @@ def gen_case(rng, cid, allow_maxpool=True):
             layers.append(dict(k="avgpool", size=2)); Lc //= 2
         elif Lc >= 2 and r < 0.45 and allow_maxpool:
             mp = rng.choice([0, 0, 1])
-            layers.append(dict(k="maxpool", size=2, pad=mp)); Lc = (Lc + 2 * mp - 2) // 2 + 1
+            cm = 1 if rng.random() < 0.4 else 0          # ceil_mode: a partial last window when the padded length is odd
+            if cm:
+                lo = (Lc + 2 * mp - 2 + 1) // 2 + 1
+                if (lo - 1) * 2 >= Lc + mp:
+                    lo -= 1
+            else:
+                lo = (Lc + 2 * mp - 2) // 2 + 1
+            layers.append(dict(k="maxpool", size=2, pad=mp, ceil=cm)); Lc = lo
     layers.append(dict(k="flatten"))
     n_in = C * Lc
     for j in range(rng.randint(1, 2)):
